@@ -88,7 +88,59 @@ def prog_shard(shard):
     return p
 
 
+def decl_case(ti, ci, mode):
+    """Programs that come from the ASSEMBLER, with a data segment of every declaration kind: the coherence invariant right after
+    load_program and after every step; logical contents = the memory of the same program on a simulation without a data cache."""
+    from architecture_simulator.simulation.riscv_simulation import RiscvSimulation
+    text = c03.decl_texts()[ti]
+    ib, bb, ways, kind, policy = c03.DECL_CACHES[ci]
+    sim = RiscvSimulation(mode=mode, data_cache=rv.cache_opts(ib, bb, ways, kind, policy, 1))
+    plain = RiscvSimulation(mode=mode)
+    sim.load_program(text)
+    plain.load_program(text)
+    words = list(range(rv.BASE, rv.BASE + 96, 4))
+    w = cachebfs.World.__new__(cachebfs.World)
+    w.cfg = ProgCfg(kind, bb, words)
+    w.sim, w.mem = sim, sim.state.memory
+    n = 0
+    while True:
+        w.flat = {}
+        for a in w.cfg.block_words:
+            v = int(plain.state.memory.read_word(a))
+            for i in range(4):
+                w.flat[a + i] = (v >> (8 * i)) & 0xFF
+        checks = []
+        w.check_coherence(checks)
+        if checks:
+            return f"{'right after load_program' if n == 0 else 'after step ' + str(n)}: {checks[0][0]}: {checks[0][1]}"
+        if sim.is_done() or n >= 120:
+            return None
+        try:
+            sim.step()
+            plain.step()
+        except Exception as e:  # noqa
+            return f"step {n + 1} raised {type(e).__name__}: {e}"
+        n += 1
+
+
+def decl_shard(ti):
+    p = Partial()
+    for ci in range(len(c03.DECL_CACHES)):
+        for mode in (rv.SINGLE, rv.FIVE):
+            p.evaluations += 1
+            p.nontrivial += 1
+            p.counters["declared-data-under-a-cache"] += 1
+            d = decl_case(ti, ci, mode)
+            if d:
+                p.violation(dict(oracle="program-coherence", kind=c03.DECL_CACHES[ci][3], mode=mode, source="assembler"), dict(kind="declared-data", ti=ti, ci=ci, mode=mode),
+                            f"{c03.decl_texts()[ti][:70]!r}... [{'/'.join(map(str, c03.DECL_CACHES[ci]))}] {mode}: {d}", size=(ti, ci))
+    return p
+
+
 def replay(case):
+    if case.get("kind") == "declared-data":
+        d = decl_case(case["ti"], case["ci"], case["mode"])
+        return [(dict(oracle="program-coherence", kind=c03.DECL_CACHES[case["ci"]][3], mode=case["mode"], source="assembler"), d)] if d else []
     if case.get("kind") == "cached-program":
         d, _exp = program_case([tuple(i) for i in case["prog"]], case["ci"], case["mode"])
         return [(dict(oracle="program-coherence", kind=c03.PROG_CACHES[case["ci"]][3], mode=case["mode"]), d)] if d else []
@@ -143,3 +195,8 @@ def run(ctx):
         ctx.space(f"cached-programs-len{L}", part, t0, length=L, cache_configs=len(c03.PROG_CACHES), modes=2,
                   note="coherence invariant after every single-cycle step and at the end of the five-stage run; logical contents = golden model")
     ctx.require("program-with-stores-under-a-cache")
+    t0 = time.time()
+    part = pmap(decl_shard, list(range(len(c03.decl_texts()))))
+    ctx.space("declared-data-under-caches", part, t0, texts=len(c03.decl_texts()), cache_configs=len(c03.DECL_CACHES), modes=2,
+              note="the invariant right after load_program and after every step; logical contents = the same program without a data cache")
+    ctx.require("declared-data-under-a-cache")
